@@ -31,6 +31,7 @@ TEXTS = [
     "<!-- _RENDERED foo -->", "<!-- _RENDERED a,b -->", "<!-- _RENDERED NoSuchComp_123abc,a1B2c3,, -->", "<!--  _RENDERED\té,1,zz,  -->", '<link name="CSS_PLACEHOLDERS">',
     '<link name="CSS_PLACEHOLDER" >', '<script name="JS_PLACEHOLDER"> </script>', '<link name="css_placeholder">', "<script>1</script>",
     "<style>a{}</style>", "{{ x }}", "{% y %}", "\\", "\x00", " ", "</html>", "<template djc-render-id=\"abc123\"></template>", "data-djc-id-a1b2c3",
+    "\ue0dc",  # stands for a lone surrogate (str inputs only, see run_case; recorded cases keep this encodable stand-in)
 ]
 END_HEAD = ["</head>", "</head>", "</head>", "</head >", "</head\n>", "</head\t >", "</HEAD>", "</Head>"]
 END_BODY = ["</body>", "</body>", "</body>", "</body >", "</body\n>", "</BODY>", "</Body >"]
@@ -190,8 +191,15 @@ def sane(env, pieces):
     return len(SENSITIVE.findall(whole)) == want
 
 
+STANDIN = "\ue0dc"
+LONE = "\udc80"  # a lone surrogate: a Python str may hold it ("any HTML string"), UTF-8 cannot
+
+
 def run_case(env, rec, case):
     pieces, mode, typ, via = case["pieces"], case["mode"], case["type"], case["via"]
+    # only a str handed to render_dependencies() directly can carry a lone surrogate
+    sub = LONE if (typ in ("str", "safe") and via == "direct") else ""
+    pieces = [[p[0], p[1].replace(STANDIN, sub)] + list(p[2:]) if p[0] == "text" else p for p in pieces]
     src = "".join(render_pieces(env, pieces))
     exp = expected_outputs(env, pieces, mode)
     enc = "utf-8"
@@ -250,7 +258,7 @@ def run_case(env, rec, case):
         rec.report(
             "output-differs",
             case,
-            {"what": f"first difference at {i}: got ...{out_s[max(0, i - 30):i + 60]!r} expected ...{e0[max(0, i - 30):i + 60]!r}", "input": src[:400]},
+            {"what": f"first difference at {i}: got ...{out_s[max(0, i - 30):i + 60]!r} expected ...{e0[max(0, i - 30):i + 60]!r}".encode("utf-8", "backslashreplace").decode(), "input": src[:400].encode("utf-8", "backslashreplace").decode()},
         )
     return "done"
 
@@ -312,7 +320,7 @@ def shard_pass(env, spec, rec):
     rec.require("passthrough-checks")
     for i in range(spec["n"]):
         pieces = gen_doc(rng)
-        src = "".join(render_pieces(env, pieces)).encode("utf-8")
+        src = "".join(render_pieces(env, pieces)).replace(STANDIN, "").encode("utf-8")
         kind = rng.choice(["json", "plain", "xml", "stream-html", "stream-json", "nohdr"])
         case = {"pieces": pieces, "kind": kind, "mode": "document", "type": "bytes", "via": "passthrough"}
         rec.case(("pass", kind, src), nontrivial=True)
